@@ -1,4 +1,5 @@
 """C06 - Field and extent bookkeeping equals arithmetic on an infinite zero-padded plane."""
+import copy
 import itertools
 from fractions import Fraction
 
@@ -28,7 +29,7 @@ ASSUMPTIONS = ['fields are 0-d or 2-d with positive dimensions; integer offsets'
 RULE = ('corpus first, then random and (thorough) exhaustive small-scope cases over ops '
         '{mul, merge, reduce, insert, extent queries, array_extent, boundary, Wavefront.field/intensity}; '
         'histories: the same Field objects used by 2-4 merge/reduce/intensity/insert/mul calls (a field spanning the others '
-        'listed first, 0-d fields at the origin, ...), each call compared on the ORIGINAL data + operands unchanged by value; '
+        'listed first, 0-d fields at the origin, ...), each call compared on the ORIGINAL data + operands unchanged by value; extent histories: array_extent asked about one (shape, shift) 2-4 times relative to the origin and to different parents in every order, then a Field there (extent, product); mul/merge/reduce/boundary configurations carried to offsets beyond 2**53 / 2**60 (exact integers); '
         'every Field built with the offset as list/tuple/ndarray/numpy ints/None and data as complex/real/int/Python values or '
         'as an ndarray subclass (masked with/without flags, np.matrix, metadata subclass, memmap; caller memory unchanged); '
         'cases with all data scaled by 2^-30..2^-43 and the results un-scaled; fields with > 2**20 samples against numpy canvases; '
@@ -284,6 +285,24 @@ def rnd_hist(rng):
     return {'op': 'hist', 'fs': fs, 'calls': calls}
 
 
+def rnd_aexth(rng):
+    """array_extent asked about ONE (shape, shift) several times in one process, relative to the origin and to different
+    parents in every order, then a Field of that shape at that offset: its extent, and its product with itself"""
+    shape = [rng.randint(1, 6), rng.randint(1, 6)]
+    shift = [rng.randint(-5, 5), rng.randint(-5, 5)]
+    parents = [None, [rng.randint(2, 12), rng.randint(2, 12)], [rng.randint(2, 40), rng.randint(2, 40)], None]
+    rng.shuffle(parents)
+    parents = parents[:rng.randint(2, 4)]
+    return {'op': 'aexth', 'shape': shape, 'shift': shift, 'parents': parents,
+            'data': [[rnd_gauss(rng) for _ in range(shape[1])] for _ in range(shape[0])]}
+
+
+def aexth_subs(c):
+    f = {'tag': 2, 'data': c['data'], 'off': list(c['shift']), 'form': 'list'}
+    return ([{'op': 'aextp', 'shape': c['shape'], 'shift': c['shift'], 'parent': p} for p in c['parents']]
+            + [{'op': 'attrs', 'f': f}, {'op': 'mul', 'a': f, 'b': dict(f)}])
+
+
 def expand(c, call):
     """one call of a history as an ordinary case on the ORIGINAL field data"""
     op = call['op']
@@ -302,7 +321,20 @@ def generate(rng, tier):
     for k in range(3 if tier == 'quick' else 6):
         yield {'op': 'big', 'kind': ['mul', 'views', 'insert'][k % 3], 'seed': rng.randint(0, 10 ** 6),
                'shape': [1030, 1021] if k < 3 else [1153, 911]}
+    for _ in range(25 if tier == 'quick' else 300):
+        yield rnd_aexth(rng)
     for c in _generate(rng, tier):
+        if c['op'] in ('mul', 'merge', 'reduce', 'boundary') and rng.random() < 0.12 and \
+                all(f['tag'] == 2 for f in fields_of(c)):
+            # the same configuration carried very far from the origin: offsets are exact integers of any size
+            dr = rng.choice([-1, 1]) * (2 ** rng.choice([53, 54, 55, 60]) + rng.randint(1, 9))
+            dc = rng.choice([-1, 1]) * (2 ** rng.choice([31, 53, 54, 60]) + rng.randint(1, 9))
+            c = copy.deepcopy(c)
+            for f in fields_of(c):
+                f['off'] = [f['off'][0] + dr, f['off'][1] + dc]
+                if f.get('form') in ('none', 'npint', 'npint_list', 'ndarray'):
+                    f['form'] = 'list'
+            c['far'] = True
         if c['op'] in ('mul', 'merge', 'reduce', 'insert', 'wfield', 'wintensity'):
             t = rng.random()
             if t < 0.1 and all(f['tag'] == 2 or c['op'] == 'mul' for f in fields_of(c)):
@@ -473,6 +505,10 @@ def classify(c):
         return 'big/' + c['kind']
     if c.get('sc') or c.get('osub') or any(f.get('sub') for f in fields_of(c)):
         return c['op'] + ('/scaled' if c.get('sc') else '') + ('/subclass' if c.get('osub') or any(f.get('sub') for f in fields_of(c)) else '')
+    if c.get('far'):
+        return c['op'] + '/far'
+    if c['op'] == 'aexth':
+        return 'aexth/' + '-'.join('o' if p is None else 'p' for p in c['parents'])
     if c['op'] == 'hist':
         return 'hist/' + '-'.join(x['op'] for x in c['calls'])
     return c['op']
@@ -480,7 +516,7 @@ def classify(c):
 
 def nontrivial(c):
     op = c['op']
-    if op in ('hist', 'big'):
+    if op in ('hist', 'big', 'aexth'):
         return True
     if op == 'mul':
         return not (c['a']['off'] == [0, 0] and c['b']['off'] == [0, 0] and shape_of(c['a']) == shape_of(c['b']))
@@ -496,6 +532,12 @@ def encode(c):
     op = c['op']
     if op == 'big':
         return None              # beyond the exact model's reach: decided by the numpy oracle
+    if op == 'aexth':
+        out = [10]
+        for sub in aexth_subs(c):
+            e = encode(sub)
+            out += [len(e)] + e
+        return out
     if op == 'hist':
         out = [10]
         for call in c['calls']:
@@ -539,6 +581,15 @@ def encode(c):
 
 
 def decode(c, ints):
+    if c['op'] == 'aexth':
+        assert ints[0] == 0
+        pos, res = 1, []
+        for sub in aexth_subs(c):
+            n = ints[pos]
+            res.append(decode(sub, ints[pos + 1:pos + 1 + n]))
+            pos += 1 + n
+        assert pos == len(ints)
+        return {'calls': res}
     if c['op'] == 'hist':
         assert ints[0] == 0
         pos, res = 1, []
@@ -639,6 +690,8 @@ def unscale(c, res):
 
 
 def run_impl(c, mk=None):
+    if c['op'] == 'aexth':
+        return {'calls': [run_impl(sub) for sub in aexth_subs(c)]}
     if c['op'] == 'hist':
         return run_hist(c)
     if c['op'] == 'big':
@@ -718,6 +771,12 @@ def _run_ops(c, mk=None):
 # ------------------------------------------------------------------ comparison (observe what the property pins)
 def compare(c, impl, model):
     op = c['op']
+    if op == 'aexth':
+        for k, sub in enumerate(aexth_subs(c)):
+            m = compare(sub, impl['calls'][k], model['calls'][k])
+            if m:
+                return f'call {k} ({sub["op"]}) after {k} earlier extent queries about the same shape and shift: {m}'
+        return None
     if op == 'hist':
         for k, call in enumerate(c['calls']):
             m = compare(expand(c, call), impl['calls'][k], model['calls'][k])
@@ -866,6 +925,13 @@ def oracle(c, impl):
     op = c['op']
     if op in ('mergepub', 'overlap', 'mergepx', 'aextp', 'attrs'):
         return oracle_api(c, impl)
+    if op == 'aexth':
+        for k, sub in enumerate(aexth_subs(c)):
+            m = oracle(sub, impl['calls'][k])
+            if m:
+                return (f'call {k} ({sub["op"]}' + (f', parent_shape={sub["parent"]}' if sub['op'] == 'aextp' else '')
+                        + f') after {k} earlier extent queries about shape {c["shape"]}, shift {c["shift"]}: {m}')
+        return None
     if op == 'hist':
         return oracle_hist(c, impl)
     if op == 'big':
